@@ -4,6 +4,8 @@
     tools/py2coq.py --target C14 [--repo /repo] [-o Generated.v]      translate the target function(s) of a property
     tools/py2coq.py --target C14 --check [--repo /repo]               translate, compile, re-check <Cxx>/Translated.v
     tools/py2coq.py --pystr-check                                     Lib/PyStr.v against this interpreter's str methods
+    tools/py2coq.py --pylist-check                                    Lib/PyList.v against this interpreter's list and dict
+    tools/py2coq.py --target C17 [--check]                            the methods of a class (METHOD_TARGETS), one by one
     tools/py2coq.py --file baize/x.py --func Class.method [--name n] [--attr a=TYPE ...]
                     [--typevar T ...] [--opaque str.lower ...] [-o out.v]
 
@@ -75,6 +77,8 @@ def ty_coq(t):
         return "Z"
     if t == "none":
         return "unit"
+    if t == "index":        # a position in a list as enumerate() gives it: an int that is never negative
+        return "nat"
     if t[0] == "list":
         return "list %s" % ty_atom(t[1])
     if t[0] == "tuple":
@@ -1062,14 +1066,926 @@ def pystr_check(verif=None, timeout=120, keep=False):
             shutil.rmtree(d, ignore_errors=True)
 
 
+# ---------------------------------------------------------------- methods of a class whose state is a pair list and a dict
+#
+# C17: MultiMapping / MutableMultiMapping keep self._list (a list of (key, value) pairs) and self._dict (a dict).  Each method
+# is translated on its own into a Gallina function over the threaded state: a method that changes the state takes
+# self__list and self__dict and gives (self__list, self__dict, PyStr.outcome <result>) -- always both attributes, always an
+# outcome, so that one method can call another --; a method that only reads gives its result.  The key and value types are
+# type variables; `==` on keys is the argument KT_eqb (nothing is claimed about it).  List and dict operations are calls of
+# Lib/PyList.v.
+#
+# Understood (everything else is refused, per method)
+#   statements   x = <expression that builds a new list, or a non-list value>   (never an alias of a list / dict object);
+#                self._list = <new list>;  self._list.append(e) / .clear() / .extend(<generator or new list>);
+#                self._dict[k] = e  (e may be l[-1]: IndexError when l is empty);  del self._dict[k]  (KeyError);
+#                del self[k]  (a call of the translated __delitem__ of the class);  try: del self[k]  except <Class>: pass;
+#                self._list[i] = e,  del self._list[i]  for a position i that enumerate gave (IndexError when there is no such
+#                position);  x = l[0]  (IndexError when l is empty);
+#                if / elif / else (what follows it in the block becomes a local function of the state that both branches end
+#                with);  for <fresh name> in <local list, reversed(local list)>:  (a local fix over the list that carries the
+#                state; no break / continue / else, no assignment to a variable bound outside);
+#                return [e];  a docstring;  pass
+#   expressions  names, self._list, self._dict, tuples, == and != on keys / values of the same type variable is only
+#                understood for keys (KT_eqb);  `k in self`  (when no class defines __contains__ and __getitem__ is
+#                `return self._dict[key]`: the Mapping mix-in then answers from self._dict);  the truth value of a list;
+#                [e for <names> in <list> if c], (e for ..) where a generator is consumed at once: as *(..) inside a list
+#                display, as the argument of extend or of tuple(..);  [*a, *b]; l[:]; t[i] for a tuple t and a literal i;
+#                enumerate(l) as the iterable of a comprehension (positions have a type of their own: never negative, only
+#                compared with each other with == / != and used as positions);  reversed(<local sequence>) as the iterable
+#                of a for statement  (enumerate / tuple / reversed must be the builtins: not bound anywhere in the module)
+
+METHOD_TARGETS = {
+    "C17": dict(
+        file="baize/datastructures.py",
+        typevars=["KT", "VT"],
+        attrs={"_list": ("list", ("tuple", (("var", "KT"), ("var", "VT")))), "_dict": ("dict", ("var", "KT"), ("var", "VT"))},
+        classes=["MutableMultiMapping", "MultiMapping"],        # most derived first: where self.<special method> is looked up
+        methods=[
+            dict(cls="MultiMapping", func="getlist", name="getlist"),
+            dict(cls="MutableMultiMapping", func="append", name="append"),
+            dict(cls="MutableMultiMapping", func="__delitem__", name="delitem"),
+            dict(cls="MutableMultiMapping", func="setlist", name="setlist"),
+            dict(cls="MutableMultiMapping", func="poplist", name="poplist"),
+            dict(cls="MutableMultiMapping", func="__setitem__", name="setitem"),
+        ]),
+}
+
+UNRELATED_EXCEPTIONS = ("KeyError", "ValueError", "TypeError", "IndexError")   # none is a subclass of another
+# (KeyError and IndexError share the base LookupError, which is not in the list: `except LookupError` is refused)
+
+HEADER_METHODS = """(* GENERATED by tools/py2coq.py from the Python source — do not edit.
+   Structurally the Python: same statements, same branch order; list / dict operations are calls of Lib/PyList.v.
+   A method that changes the object takes and gives self._list and self._dict; KT_eqb is `==` on keys. *)
+From Coq Require Import List NArith ZArith Bool.
+From Baize Require Import Lib.PyStr Lib.PyList.
+Import ListNotations.
+Local Open Scope N_scope.
+
+"""
+
+
+def is_list(t):
+    return isinstance(t, tuple) and t[0] == "list"
+
+
+class ClassCtx:
+    """the classes of one METHOD_TARGETS entry, read from the source; translations are memoised per method name"""
+
+    def __init__(self, repo, target):
+        self.target = target
+        self.path = os.path.join(repo, target["file"])
+        self.src = open(self.path, encoding="utf-8").read()
+        self.tree = ast.parse(self.src)
+        self.classes = {}
+        for cname in target["classes"]:
+            found = [n for n in self.tree.body if isinstance(n, ast.ClassDef) and n.name == cname]
+            if len(found) != 1:
+                raise Unsupported(self.tree, "%d classes named %s" % (len(found), cname))
+            self.classes[cname] = found[0]
+        self.done = {}          # name -> MethodFn (translated) or Unsupported
+
+    def lookup(self, special):
+        """the definition of a special method as an instance of the most derived class sees it -> (class name, FunctionDef)"""
+        for cname in self.target["classes"]:
+            found = [n for n in self.classes[cname].body if isinstance(n, (ast.FunctionDef, ast.AsyncFunctionDef)) and n.name == special]
+            assigned = [n for n in ast.walk(self.classes[cname]) if isinstance(n, ast.Name) and n.id == special]
+            if assigned or len(found) > 1:
+                raise Unsupported(self.classes[cname], "%s is bound in class %s in a way that is not one plain def" % (special, cname))
+            if found:
+                if not isinstance(found[0], ast.FunctionDef) or found[0].decorator_list:
+                    raise Unsupported(found[0], "%s is not a plain undecorated function" % special)
+                return cname, found[0]
+        return None, None
+
+    def contains_is_dict_membership(self, node):
+        """`k in self` is answered by Mapping.__contains__ (try self[k] / except KeyError) from self._dict"""
+        c, f = self.lookup("__contains__")
+        if f is not None:
+            raise Unsupported(node, "`in self` when class %s defines __contains__" % c)
+        c, f = self.lookup("__getitem__")
+        if f is None:
+            raise Unsupported(node, "`in self` without a __getitem__ in the translated classes")
+        body = [s for s in f.body if not (isinstance(s, ast.Expr) and isinstance(s.value, ast.Constant))]
+        a = f.args
+        ok = (len(a.args) == 2 and not (a.vararg or a.kwarg or a.kwonlyargs or a.posonlyargs or a.defaults) and len(body) == 1
+              and isinstance(body[0], ast.Return) and isinstance(body[0].value, ast.Subscript)
+              and ast.dump(body[0].value.value) == ast.dump(ast.parse("%s._dict" % a.args[0].arg, mode="eval").body)
+              and isinstance(body[0].value.slice, ast.Name) and body[0].value.slice.id == a.args[1].arg)
+        if not ok or self.target["attrs"].get("_dict", ("",))[0] != "dict":
+            raise Unsupported(node, "`in self` when __getitem__ is not `return self._dict[key]`")
+
+    def method(self, name):
+        """the translation of the method called <name> in the target's table -> MethodFn; raises Unsupported"""
+        if name not in self.done:
+            spec = next((m for m in self.target["methods"] if m["name"] == name), None)
+            try:
+                if spec is None:
+                    raise Unsupported(self.tree, "method %s is not in the translator's table" % name)
+                self.done[name] = None          # guards against recursion
+                fdefs = [n for n in self.classes[spec["cls"]].body
+                         if isinstance(n, (ast.FunctionDef, ast.AsyncFunctionDef)) and n.name == spec["func"]]
+                if len(fdefs) != 1 or not isinstance(fdefs[0], ast.FunctionDef):
+                    raise Unsupported(self.classes[spec["cls"]], "%d plain definitions of %s.%s" % (len(fdefs), spec["cls"], spec["func"]))
+                m = MethodFn(self, fdefs[0], spec)
+                m.translate()
+                self.done[name] = m
+            except Unsupported as e:
+                self.done[name] = e
+        r = self.done[name]
+        if r is None:
+            raise Unsupported(self.tree, "method %s calls itself" % name)
+        if isinstance(r, Unsupported):
+            raise r
+        return r
+
+
+class MethodFn:
+    def __init__(self, ctx, fdef, spec):
+        self.ctx, self.f, self.spec = ctx, fdef, spec
+        self.typevars = list(ctx.target["typevars"])
+        self.attrs = dict(ctx.target["attrs"])
+        self.deps = []          # names of translated methods this one calls, in order of first call
+        self.raises = set()     # exception class names the generated function may give
+        self.n = 0
+        self.text = None
+        self.frozen = frozenset()       # names that may not be assigned here (bound outside the loop / branch being translated)
+
+    def fresh(self):
+        self.n += 1
+        return str(self.n)
+
+    def var(self, name):
+        return "v_" + name
+
+    def attr(self, name):
+        return "self_" + name
+
+    def state_tuple(self):
+        return ", ".join(self.attr(a) for a in self.attrs)
+
+    # ---- expressions -> (text, type).  'gen' in the type's place of 'list' marks a generator (to be consumed at once)
+    def expr(self, e, env):
+        m = getattr(self, "e_" + type(e).__name__, None)
+        if m is None:
+            raise Unsupported(e, "expression kind not supported")
+        return m(e, env)
+
+    def e_Name(self, e, env):
+        if e.id not in env:
+            raise Unsupported(e, "name is not a parameter or a local variable bound on every path to here")
+        return self.var(e.id), env[e.id]
+
+    def e_Attribute(self, e, env):
+        if isinstance(e.value, ast.Name) and e.value.id == "self" and "self" not in env and e.attr in self.attrs:
+            return self.attr(e.attr), self.attrs[e.attr]
+        raise Unsupported(e, "attribute access (only the declared attributes of self)")
+
+    def e_Tuple(self, e, env):
+        if len(e.elts) < 2 or any(isinstance(x, ast.Starred) for x in e.elts):
+            raise Unsupported(e, "empty, one-element or starred tuple")
+        parts = [self.expr(x, env) for x in e.elts]
+        if any(p[1][0] in ("gen", "list", "dict") for p in parts if isinstance(p[1], tuple)):
+            raise Unsupported(e, "tuple that holds a list / dict / generator object")
+        return "(%s)" % ", ".join(p[0] for p in parts), ("tuple", tuple(p[1] for p in parts))
+
+    def e_Compare(self, e, env):
+        if len(e.ops) != 1:
+            raise Unsupported(e, "chained comparison")
+        op, right = e.ops[0], e.comparators[0]
+        if isinstance(op, (ast.In, ast.NotIn)):
+            if not (isinstance(right, ast.Name) and right.id == "self" and "self" not in env):
+                raise Unsupported(e, "`in` other than `in self`")
+            self.ctx.contains_is_dict_membership(e)
+            a, ta = self.expr(e.left, env)
+            if ta != self.attrs["_dict"][1]:
+                raise Unsupported(e, "`in self` of a %s" % (ta,))
+            c = "PyList.dict_mem %s_eqb %s %s" % (ta[1], paren(a), self.attr("_dict"))
+            return (c if isinstance(op, ast.In) else "negb (%s)" % c), "bool"
+        if isinstance(op, (ast.Eq, ast.NotEq)):
+            (a, ta), (b, tb) = self.expr(e.left, env), self.expr(right, env)
+            if ta == tb == "index":
+                c = "Nat.eqb %s %s" % (paren(a), paren(b))
+                return (c if isinstance(op, ast.Eq) else "negb (%s)" % c), "bool"
+            if ta != tb or ta != self.attrs["_dict"][1] or ta[0] != "var":
+                raise Unsupported(e, "== between %s and %s (only between keys)" % (ta, tb))
+            c = "%s_eqb %s %s" % (ta[1], paren(a), paren(b))
+            return (c if isinstance(op, ast.Eq) else "negb (%s)" % c), "bool"
+        raise Unsupported(e, "comparison operator %s" % type(op).__name__)
+
+    def e_Subscript(self, e, env):
+        c, t = self.expr(e.value, env)
+        if isinstance(e.slice, ast.Slice):
+            s = e.slice
+            if is_list(t) and s.lower is None and s.upper is None and s.step is None:
+                return "PyList.copy %s" % paren(c), t
+            raise Unsupported(e, "slice other than l[:] of a list")
+        if isinstance(t, tuple) and t[0] == "tuple" and isinstance(e.slice, ast.Constant) and type(e.slice.value) is int \
+                and 0 <= e.slice.value < len(t[1]):
+            k, n = e.slice.value, len(t[1])
+            pat = ", ".join("p%d" % i if i == k else "_" for i in range(n))
+            return "(let '(%s) := %s in p%d)" % (pat, c, k), t[1][k]
+        raise Unsupported(e, "subscript (only l[:], literal indices of tuples, and l[-1] as the whole right-hand side of an assignment)")
+
+    def comprehension(self, e, env, kind):
+        if len(e.generators) != 1:
+            raise Unsupported(e, "comprehension with several for clauses")
+        g = e.generators[0]
+        if g.is_async or len(g.ifs) > 1:
+            raise Unsupported(e, "async comprehension / several if clauses")
+        for part in [e.elt] + list(g.ifs):
+            for n in ast.walk(part):
+                if isinstance(n, ast.Name) and n.id == "self":
+                    raise Unsupported(e, "comprehension whose element or condition looks at self (it may run after self has changed)")
+                if isinstance(n, (ast.NamedExpr, ast.Lambda, ast.ListComp, ast.GeneratorExp, ast.SetComp, ast.DictComp, ast.Await, ast.Yield)):
+                    raise Unsupported(n, "nested comprehension / assignment expression")
+        ic, it = self.expr(g.iter, env)
+        if not (isinstance(it, tuple) and it[0] in ("list", "gen")):
+            raise Unsupported(g.iter, "comprehension over a %s (only lists)" % (it,))
+        env2 = dict(env)
+        tg = g.target
+        if isinstance(tg, ast.Name) and tg.id != "self":
+            env2[tg.id] = it[1]
+            pat = self.var(tg.id)
+        elif isinstance(tg, ast.Tuple) and isinstance(it[1], tuple) and it[1][0] == "tuple" and len(it[1][1]) == len(tg.elts) \
+                and all(isinstance(x, ast.Name) and x.id != "self" for x in tg.elts) and len({x.id for x in tg.elts}) == len(tg.elts):
+            for x, tx in zip(tg.elts, it[1][1]):
+                env2[x.id] = tx
+            pat = "'(%s)" % ", ".join(self.var(x.id) for x in tg.elts)
+        else:
+            raise Unsupported(e, "comprehension target does not fit an element of type %s" % (it[1],))
+        ec, et = self.expr(e.elt, env2)
+        if isinstance(et, tuple) and et[0] in ("gen", "list", "dict"):
+            raise Unsupported(e, "comprehension of list / dict objects")
+        if g.ifs:
+            cc, ct = self.expr(g.ifs[0], env2)
+            if ct != "bool":
+                raise Unsupported(g.ifs[0], "comprehension condition that is not a bool")
+        else:
+            cc = "true"
+        return "PyList.comp (fun %s => %s) (fun %s => %s) %s" % (pat, ec, pat, cc, paren(ic)), (kind, et)
+
+    def builtin(self, e, env, name):
+        """is e the builtin <name> (not a parameter, local or module-level binding of that name)?"""
+        if not (isinstance(e, ast.Name) and e.id == name):
+            return False
+        if name in env:
+            raise Unsupported(e, "%s is a local name here" % name)
+        for n in ast.walk(self.ctx.tree):
+            if (isinstance(n, ast.Name) and n.id == name and not isinstance(n.ctx, ast.Load)) \
+                    or (isinstance(n, (ast.FunctionDef, ast.AsyncFunctionDef, ast.ClassDef)) and n.name == name) \
+                    or (isinstance(n, ast.alias) and (n.asname or n.name).split(".")[0] in (name, "*")) \
+                    or (isinstance(n, ast.arg) and n.arg == name):
+                raise Unsupported(e, "%s may not be the builtin in this module" % name)
+        return True
+
+    def e_Call(self, e, env):
+        if e.keywords or len(e.args) != 1 or isinstance(e.args[0], ast.Starred):
+            raise Unsupported(e, "call (only enumerate(l), tuple(<generator>), reversed(<local sequence>))")
+        f, arg = e.func, e.args[0]
+        if self.builtin(f, env, "enumerate"):
+            c, t = self.expr(arg, env)
+            if not is_list(t):
+                raise Unsupported(e, "enumerate of a %s" % (t,))
+            return "PyList.enumerate %s" % paren(c), ("gen", ("tuple", ("index", t[1])))
+        if self.builtin(f, env, "tuple") and isinstance(arg, ast.GeneratorExp):
+            c, t = self.expr(arg, env)
+            return "PyList.tuple_of %s" % paren(c), ("list", t[1])
+        if self.builtin(f, env, "reversed") and isinstance(arg, ast.Name):
+            c, t = self.expr(arg, env)      # a local sequence: nothing changes it (only attributes of self are ever changed)
+            if not is_list(t):
+                raise Unsupported(e, "reversed of a %s" % (t,))
+            return "PyList.reversed %s" % paren(c), ("gen", t[1])
+        raise Unsupported(e, "call (only enumerate(l), tuple(<generator>), reversed(<local sequence>))")
+
+    def e_ListComp(self, e, env):
+        return self.comprehension(e, env, "list")
+
+    def e_GeneratorExp(self, e, env):
+        return self.comprehension(e, env, "gen")
+
+    def e_List(self, e, env):
+        # [*a, *b]: each of a, b a generator or a list; evaluated from left to right, at once
+        if len(e.elts) == 2 and all(isinstance(x, ast.Starred) for x in e.elts):
+            parts = [self.expr(x.value, env) for x in e.elts]
+            if all(isinstance(t, tuple) and t[0] in ("gen", "list") for _, t in parts) and parts[0][1][1] == parts[1][1][1]:
+                return "PyList.concat2 %s %s" % (paren(parts[0][0]), paren(parts[1][0])), ("list", parts[0][1][1])
+        raise Unsupported(e, "list display other than [*a, *b] of two lists / generators of one element type")
+
+    def fresh_list(self, e, env, want):
+        """a list-valued expression that is a NEW list object (no alias of self._list or of a parameter)"""
+        if not isinstance(e, (ast.ListComp, ast.List)) and not (isinstance(e, ast.Subscript) and isinstance(e.slice, ast.Slice)) \
+                and not (isinstance(e, ast.Call) and isinstance(e.func, ast.Name) and e.func.id == "tuple"):
+            raise Unsupported(e, "a list that may be an alias of another list object (only comprehensions, displays, l[:])")
+        c, t = self.expr(e, env)
+        if want is not None and t != want:
+            raise Unsupported(e, "a %s where a %s is expected" % (t, want))
+        return c, t
+
+    def truth(self, e, env):
+        c, t = self.expr(e, env)
+        if t == "bool":
+            return c
+        if is_list(t):
+            return "negb (PyStr.is_empty %s)" % paren(c)
+        raise Unsupported(e, "truth value of a %s" % (t,))
+
+    # ---- statements
+    def ret(self, value):
+        if self.mut:
+            return "(%s, PyStr.Ret %s)" % (self.state_tuple(), paren(value))
+        return value
+
+    def raise_(self, cls):
+        if not self.mut:
+            raise Unsupported(self.f, "a method that only reads but may raise")
+        self.raises.add(cls)
+        return "(%s, PyStr.Raise %s %s)" % (self.state_tuple(), lit_str(cls), comment_of(cls))
+
+    def end(self, node, env):
+        if self.rtype != "none":
+            raise Unsupported(node, "control may reach the end of the function, whose return type is %s" % (self.rtype,))
+        return self.ret("tt")
+
+    def is_self_attr(self, e, name=None):
+        return isinstance(e, ast.Attribute) and isinstance(e.value, ast.Name) and e.value.id == "self" \
+            and e.attr in self.attrs and (name is None or e.attr == name)
+
+    def call_method(self, name, args, handlers, node, pad, cont):
+        """a call of another translated method as a statement (its result is dropped); handlers: exception class names that
+        are caught and passed over"""
+        m = self.ctx.method(name)
+        if not m.mut:
+            raise Unsupported(node, "call of a method that only reads, as a statement")
+        known = set(UNRELATED_EXCEPTIONS)
+        if not (m.raises <= known and set(handlers) <= known):
+            raise Unsupported(node, "exception classes outside %s (subclass relations are not modelled)" % (UNRELATED_EXCEPTIONS,))
+        if name not in self.deps:
+            self.deps.append(name)
+        self.raises |= (m.raises - set(handlers))
+        i = self.fresh()
+        names = "[%s]" % "; ".join("%s %s" % (lit_str(h), comment_of(h)) for h in handlers)
+        return ("let '(%s, o%s) := %s %s_eqb %s %s in\n%smatch PyList.uncaught %s o%s with\n%s| Some exc%s => (%s, PyStr.Raise exc%s)\n%s| None =>\n%s    %s\n%send"
+                % (self.state_tuple(), i, name, self.attrs["_dict"][1][1], " ".join(self.attr(a) for a in self.attrs),
+                   " ".join(paren(a) for a in args), pad, names, i, pad, i, self.state_tuple(), i, pad, pad, cont(), pad))
+
+    def del_self_item(self, s, env):
+        """`del self[k]` -> the text of k, or None when s is something else"""
+        if isinstance(s, ast.Delete) and len(s.targets) == 1 and isinstance(s.targets[0], ast.Subscript) \
+                and isinstance(s.targets[0].value, ast.Name) and s.targets[0].value.id == "self" and "self" not in env \
+                and not isinstance(s.targets[0].slice, ast.Slice):
+            cname, f = self.ctx.lookup("__delitem__")
+            spec = next((m for m in self.ctx.target["methods"] if m["func"] == "__delitem__" and m["cls"] == cname), None)
+            if spec is None:
+                raise Unsupported(s, "del self[..] when __delitem__ is not one of the translated methods")
+            kc, kt = self.expr(s.targets[0].slice, env)
+            if kt != self.attrs["_dict"][1]:
+                raise Unsupported(s, "del self[..] with a %s" % (kt,))
+            return spec["name"], kc
+        return None, None
+
+    def block(self, stmts, env, ind, k=None):
+        """k: None, or a function that gives the text for `control reaches the end of this block` (the rest of an enclosing
+        block, the next round of a loop)"""
+        pad = "  " * ind
+        if not stmts:
+            return k() if k is not None else self.end(self.f, env)
+        s, rest = stmts[0], stmts[1:]
+
+        def cont(env=env):
+            return self.block(rest, env, ind + 1, k)
+        if isinstance(s, ast.Expr) and isinstance(s.value, ast.Constant) and isinstance(s.value.value, str):
+            return self.block(rest, env, ind, k)
+        if isinstance(s, ast.Pass):
+            return self.block(rest, env, ind, k)
+        if isinstance(s, ast.Return):
+            if rest:
+                raise Unsupported(rest[0], "statement after return")
+            if s.value is None or (isinstance(s.value, ast.Constant) and s.value.value is None):
+                return self.end(s, env)
+            c, t = self.expr(s.value, env)
+            if t != self.rtype:
+                raise Unsupported(s, "returns a %s, the function's return type is %s" % (t, self.rtype))
+            if is_list(t) and not isinstance(s.value, (ast.Name, ast.ListComp)):
+                raise Unsupported(s, "returns a list object that is not a local variable or a comprehension")
+            return self.ret(c)
+        if isinstance(s, ast.Assign):
+            if len(s.targets) != 1:
+                raise Unsupported(s, "chained assignment")
+            tg = s.targets[0]
+            if isinstance(tg, ast.Name):
+                if tg.id == "self":
+                    raise Unsupported(s, "assignment to self")
+                if tg.id in self.frozen:
+                    raise Unsupported(s, "assignment inside a loop to a variable bound before the loop")
+                v = s.value
+                if isinstance(v, ast.Subscript) and isinstance(v.slice, ast.Constant) and type(v.slice.value) is int and v.slice.value == 0:
+                    lc, lt = self.expr(v.value, env)
+                    if is_list(lt):         # l[0]
+                        if isinstance(lt[1], tuple) and lt[1][0] in ("list", "dict", "gen"):
+                            raise Unsupported(s, "an element that is a list / dict object")
+                        env = dict(env)
+                        env[tg.id] = lt[1]
+                        return ("match PyList.first_item %s with\n%s| None => %s\n%s| Some %s =>\n%s    %s\n%send"
+                                % (paren(lc), pad, self.raise_("IndexError"), pad, self.var(tg.id), pad,
+                                   self.block(rest, env, ind + 2, k), pad))
+                c, t = self.expr(s.value, env)
+                if isinstance(t, tuple) and t[0] in ("list", "dict", "gen"):
+                    c, t = self.fresh_list(s.value, env, None)
+                env = dict(env)
+                env[tg.id] = t
+                return "let %s := %s in\n%s%s" % (self.var(tg.id), c, pad, self.block(rest, env, ind, k))
+            if self.is_self_attr(tg) and is_list(self.attrs[tg.attr]):
+                c, t = self.fresh_list(s.value, env, self.attrs[tg.attr])
+                return "let %s := %s in\n%s%s" % (self.attr(tg.attr), c, pad, self.block(rest, env, ind, k))
+            if isinstance(tg, ast.Subscript) and self.is_self_attr(tg.value) and self.attrs[tg.value.attr][0] == "dict" \
+                    and not isinstance(tg.slice, ast.Slice):
+                td = self.attrs[tg.value.attr]
+                kc, kt = self.expr(tg.slice, env)
+                if kt != td[1]:
+                    raise Unsupported(s, "item assignment with a key of type %s" % (kt,))
+                a = self.attr(tg.value.attr)
+                v = s.value
+                if isinstance(v, ast.Subscript) and isinstance(v.slice, ast.UnaryOp) and isinstance(v.slice.op, ast.USub) \
+                        and isinstance(v.slice.operand, ast.Constant) and type(v.slice.operand.value) is int and v.slice.operand.value == 1:
+                    lc, lt = self.expr(v.value, env)       # l[-1]
+                    if not is_list(lt) or lt[1] != td[2]:
+                        raise Unsupported(s, "item assignment of the last element of a %s" % (lt,))
+                    i = self.fresh()
+                    return ("match PyList.last_item %s with\n%s| None => %s\n%s| Some x%s =>\n%s    let %s := PyList.dict_set %s_eqb %s x%s %s in\n%s    %s\n%send"
+                            % (paren(lc), pad, self.raise_("IndexError"), pad, i, pad, a, td[1][1], paren(kc), i, a, pad,
+                               self.block(rest, env, ind + 2, k), pad))
+                vc, vt = self.expr(v, env)
+                if vt != td[2]:
+                    raise Unsupported(s, "item assignment of a %s" % (vt,))
+                return "let %s := PyList.dict_set %s_eqb %s %s %s in\n%s%s" % (a, td[1][1], paren(kc), paren(vc), a, pad, self.block(rest, env, ind, k))
+            if isinstance(tg, ast.Subscript) and self.is_self_attr(tg.value) and is_list(self.attrs[tg.value.attr]) \
+                    and not isinstance(tg.slice, ast.Slice):
+                ta = self.attrs[tg.value.attr]
+                ic, it = self.expr(tg.slice, env)
+                vc, vt = self.expr(s.value, env)
+                if it != "index" or vt != ta[1]:
+                    raise Unsupported(s, "item assignment l[%s] = %s (only a position that enumerate gave)" % (it, vt))
+                a = self.attr(tg.value.attr)
+                return ("match PyList.set_item %s %s %s with\n%s| None => %s\n%s| Some %s =>\n%s    %s\n%send"
+                        % (a, paren(ic), paren(vc), pad, self.raise_("IndexError"), pad, a, pad, self.block(rest, env, ind + 2, k), pad))
+            raise Unsupported(s, "assignment target")
+        if isinstance(s, ast.Expr) and isinstance(s.value, ast.Call):
+            call = s.value
+            f = call.func
+            if call.keywords or any(isinstance(a, ast.Starred) for a in call.args) or not isinstance(f, ast.Attribute) \
+                    or not self.is_self_attr(f.value) or not is_list(self.attrs[f.value.attr]):
+                raise Unsupported(s, "call statement (only append / clear / extend of a list attribute of self)")
+            a, ta = self.attr(f.value.attr), self.attrs[f.value.attr]
+            if f.attr == "append" and len(call.args) == 1:
+                c, t = self.expr(call.args[0], env)
+                if t != ta[1]:
+                    raise Unsupported(s, "append of a %s to a %s" % (t, ta))
+                return "let %s := PyList.append %s %s in\n%s%s" % (a, a, paren(c), pad, self.block(rest, env, ind, k))
+            if f.attr == "clear" and not call.args:
+                return "let %s := PyList.clear %s in\n%s%s" % (a, a, pad, self.block(rest, env, ind, k))
+            if f.attr == "extend" and len(call.args) == 1:
+                arg = call.args[0]
+                for n in ast.walk(arg):
+                    if isinstance(n, ast.Name) and n.id == "self":
+                        raise Unsupported(s, "extend with an argument that looks at self (it is consumed while the list grows)")
+                if isinstance(arg, ast.GeneratorExp):
+                    c, t = self.expr(arg, env)
+                else:
+                    c, t = self.fresh_list(arg, env, None)
+                if t[1] != ta[1]:
+                    raise Unsupported(s, "extend of a %s by a %s" % (ta, t))
+                return "let %s := PyList.extend %s %s in\n%s%s" % (a, a, paren(c), pad, self.block(rest, env, ind, k))
+            raise Unsupported(s, "list method %s with %d argument(s)" % (f.attr, len(call.args)))
+        if isinstance(s, ast.Delete):
+            name, kc = self.del_self_item(s, env)
+            if name is not None:
+                return self.call_method(name, [kc], [], s, pad, cont)
+            if len(s.targets) == 1 and isinstance(s.targets[0], ast.Subscript) and self.is_self_attr(s.targets[0].value) \
+                    and self.attrs[s.targets[0].value.attr][0] == "dict" and not isinstance(s.targets[0].slice, ast.Slice):
+                tg = s.targets[0]
+                td = self.attrs[tg.value.attr]
+                kc, kt = self.expr(tg.slice, env)
+                if kt != td[1]:
+                    raise Unsupported(s, "del of a key of type %s" % (kt,))
+                a = self.attr(tg.value.attr)
+                return ("match PyList.dict_delitem %s_eqb %s %s with\n%s| None => %s\n%s| Some %s =>\n%s    %s\n%send"
+                        % (td[1][1], paren(kc), a, pad, self.raise_("KeyError"), pad, a, pad, self.block(rest, env, ind + 2, k), pad))
+            if len(s.targets) == 1 and isinstance(s.targets[0], ast.Subscript) and self.is_self_attr(s.targets[0].value) \
+                    and is_list(self.attrs[s.targets[0].value.attr]) and not isinstance(s.targets[0].slice, ast.Slice):
+                tg = s.targets[0]
+                ic, it = self.expr(tg.slice, env)
+                if it != "index":
+                    raise Unsupported(s, "del l[%s] (only a position that enumerate gave)" % (it,))
+                a = self.attr(tg.value.attr)
+                return ("match PyList.del_item %s %s with\n%s| None => %s\n%s| Some %s =>\n%s    %s\n%send"
+                        % (a, paren(ic), pad, self.raise_("IndexError"), pad, a, pad, self.block(rest, env, ind + 2, k), pad))
+            raise Unsupported(s, "del (only del self._dict[k], del self._list[i] and del self[k])")
+        if isinstance(s, ast.Try):
+            if s.orelse or s.finalbody or len(s.handlers) != 1 or len(s.body) != 1:
+                raise Unsupported(s, "try statement (only try: del self[k] / except <Class>: pass)")
+            h = s.handlers[0]
+            if h.name is not None or not isinstance(h.type, ast.Name) or not all(isinstance(x, ast.Pass) for x in h.body):
+                raise Unsupported(s, "handler (only `except <Class>: pass`)")
+            name, kc = self.del_self_item(s.body[0], env)
+            if name is None:
+                raise Unsupported(s, "try body (only del self[k])")
+            return self.call_method(name, [kc], [h.type.id], s, pad, cont)
+        if isinstance(s, ast.If):
+            cond = self.truth(s.test, env)
+            if not rest:
+                a = self.block(list(s.body), dict(env), ind + 1, k)
+                b = self.block(list(s.orelse), dict(env), ind + 1, k)
+                return "if %s\n%sthen %s\n%selse %s" % (cond, pad, a, pad, b)
+            # what follows the statement becomes a local function of the state, called at the end of either branch (a variable
+            # first assigned in a branch is not visible in it: a use is refused as an unbound name)
+            if not self.mut:
+                raise Unsupported(s, "if statement that is not the last statement of its block, in a method that only reads")
+            kn = "k" + self.fresh()
+            binders = " ".join("(%s : %s)" % (self.attr(x), ty_coq(self.attrs[x])) for x in self.attrs)
+            after = self.block(rest, dict(env), ind + 2, k)
+
+            def join():
+                return "%s %s" % (kn, " ".join(self.attr(x) for x in self.attrs))
+            frozen = self.frozen
+            self.frozen = frozen | set(env)
+            try:
+                a = self.block(list(s.body), dict(env), ind + 1, join)
+                b = self.block(list(s.orelse), dict(env), ind + 1, join)
+            finally:
+                self.frozen = frozen
+            return "let %s := fun %s =>\n%s    %s in\n%sif %s\n%sthen %s\n%selse %s" % (kn, binders, pad, after, pad, cond, pad, a, pad, b)
+        if isinstance(s, ast.For):
+            if not self.mut:
+                raise Unsupported(s, "for statement in a method that only reads")
+            if s.orelse or any(isinstance(n, (ast.Break, ast.Continue)) for n in ast.walk(s)):
+                raise Unsupported(s, "for .. else / break / continue")
+            if any(isinstance(n, ast.Name) and n.id == "self" for n in ast.walk(s.iter)):
+                raise Unsupported(s.iter, "for over something that looks at self (the body may change it)")
+            if not (isinstance(s.target, ast.Name) and s.target.id != "self" and s.target.id not in env):
+                raise Unsupported(s, "loop target (only one fresh name)")
+            ic, it = self.expr(s.iter, env)
+            if not (isinstance(it, tuple) and it[0] in ("list", "gen")) or (isinstance(it[1], tuple) and it[1][0] in ("list", "dict", "gen")):
+                raise Unsupported(s.iter, "for over a %s" % (it,))
+            i = self.fresh()
+            loop, lv = "loop" + i, "l" + i
+            states = " ".join(self.attr(x) for x in self.attrs)
+            binders = " ".join("(%s : %s)" % (self.attr(x), ty_coq(self.attrs[x])) for x in self.attrs)
+            done = self.block(rest, dict(env), ind + 3, k)
+            env_body = dict(env)
+            env_body[s.target.id] = it[1]
+            frozen = self.frozen
+            self.frozen = frozen | set(env)
+            try:
+                body = self.block(list(s.body), env_body, ind + 3, lambda: "%s %s' %s" % (loop, lv, states))
+            finally:
+                self.frozen = frozen
+            return ("(fix %s (%s : list %s) %s {struct %s} : %s :=\n%s   match %s with\n%s   | [] =>\n%s      %s\n%s   | %s :: %s' =>\n%s      %s\n%s   end) %s %s"
+                    % (loop, lv, ty_atom(it[1]), binders, lv, self.result_type_text(), pad, lv, pad, pad, done, pad,
+                       self.var(s.target.id), lv, pad, body, pad, paren(ic), states))
+        raise Unsupported(s, "statement kind not supported")
+
+    def is_mutating(self, stmts):
+        for s in stmts:
+            if isinstance(s, ast.If):
+                if self.is_mutating(s.body) or self.is_mutating(s.orelse):
+                    return True
+            elif isinstance(s, ast.Assign) and all(isinstance(t, ast.Name) for t in s.targets):
+                pass
+            elif isinstance(s, (ast.Return, ast.Pass)) or (isinstance(s, ast.Expr) and isinstance(s.value, ast.Constant)):
+                pass
+            else:
+                return True
+        return False
+
+    def translate(self):
+        f = self.f
+        a = f.args
+        if a.vararg or a.kwarg or a.kwonlyargs or a.posonlyargs or a.defaults or a.kw_defaults:
+            raise Unsupported(f, "parameters other than plain positional ones without defaults")
+        if f.decorator_list:
+            raise Unsupported(f.decorator_list[0], "decorator")
+        params = list(a.args)
+        if not params or params[0].arg != "self" or params[0].annotation is not None:
+            raise Unsupported(f, "not a method (first parameter self)")
+        for n in ast.walk(f):
+            if isinstance(n, (ast.Global, ast.Nonlocal, ast.FunctionDef, ast.AsyncFunctionDef, ast.ClassDef, ast.Lambda, ast.NamedExpr,
+                              ast.Yield, ast.YieldFrom, ast.Await, ast.While, ast.AsyncFor, ast.With, ast.Import, ast.ImportFrom)) and n is not f:
+                raise Unsupported(n, "statement / expression kind not supported")
+        env = {}
+        binders = []
+        for p in params[1:]:
+            if p.annotation is None:
+                raise Unsupported(p, "parameter without annotation")
+            env[p.arg] = parse_type(p.annotation, self.typevars)
+            binders.append("(%s : %s)" % (self.var(p.arg), ty_coq(env[p.arg])))
+        if f.returns is None:
+            raise Unsupported(f, "no return annotation")
+        self.rtype = parse_type(f.returns, self.typevars)
+        self.mut = self.is_mutating(f.body)
+        body = self.block(list(f.body), env, 2)
+        used = [x for x in self.attrs
+                if self.mut or any(self.is_self_attr(n, x) for n in ast.walk(f))
+                or (x == "_dict" and any(isinstance(n, ast.Compare) and isinstance(n.ops[0], (ast.In, ast.NotIn)) for n in ast.walk(f)))]
+        kv = self.attrs["_dict"][1][1]
+        tv = "".join(" {%s : Type}" % v for v in self.typevars)
+        ab = "".join(" (%s : %s)" % (self.attr(x), ty_coq(self.attrs[x])) for x in used)
+        r = self.result_type_text()
+        self.text = "Definition %s%s (%s_eqb : %s -> %s -> bool)%s %s : %s :=\n    %s.\n" % (
+            self.spec["name"], tv, kv, kv, kv, ab, " ".join(binders), r, body)
+        seg = ast.get_source_segment(self.ctx.src, f) or ""
+        self.head = "(* %s :: %s.%s, lines %d-%d\n%s\n*)\n" % (
+            self.ctx.target["file"], self.spec["cls"], self.spec["func"], f.lineno, f.end_lineno,
+            "\n".join("   | " + l for l in comment_safe(seg).splitlines()))
+        return self.text
+
+    def result_type_text(self):
+        if self.mut:
+            return "(%s)" % " * ".join([ty_atom(self.attrs[x]) for x in self.attrs] + ["(PyStr.outcome %s)" % ty_atom(self.rtype)])
+        return ty_coq(self.rtype)
+
+    def closure(self):
+        """names of the methods whose definitions this one needs, dependencies first, itself last"""
+        out = []
+        for dname in self.deps:
+            for x in self.ctx.method(dname).closure():
+                if x not in out:
+                    out.append(x)
+        out.append(self.spec["name"])
+        return out
+
+
+def translate_methods(repo, pid):
+    """-> (ctx, [(spec, MethodFn or Unsupported)])"""
+    target = METHOD_TARGETS[pid]
+    ctx = ClassCtx(repo, target)
+    out = []
+    for spec in target["methods"]:
+        try:
+            out.append((spec, ctx.method(spec["name"])))
+        except Unsupported as e:
+            out.append((spec, e))
+    return ctx, out
+
+
+def methods_text(ctx, names):
+    return HEADER_METHODS + "\n".join(ctx.method(n).head + ctx.method(n).text for n in names)
+
+
+def split_segments(tsrc):
+    """Translated.v of a METHOD_TARGETS property: the text before the first marked segment, and the segments by method name"""
+    import re
+    segs = {m.group(1): m.group(0) for m in re.finditer(r"\(\* METHOD-BEGIN (\w+) \*\).*?\(\* METHOD-END \1 \*\)\n?", tsrc, re.S)}
+    first = tsrc.find("(* METHOD-BEGIN ")
+    return (tsrc if first < 0 else tsrc[:first]), segs
+
+
+def check_methods(pid, repo=None, verif=None, timeout=120, keep=False):
+    """The source-level tie of a METHOD_TARGETS property, one verdict per method: translate each method from the source in <repo>
+    as it is NOW; for each one that translates, compile its definition (and those of the methods it calls) and re-run coqc on
+    the part of coq/theories/<pid>/Translated.v that is about it (the text before the first segment, the segments of the
+    methods it calls, its own segment) against the fresh definitions.  -> [(name, ok, detail)]"""
+    import re
+    import shutil
+    import time
+    from concurrent.futures import ThreadPoolExecutor
+    repo = repo or os.environ.get("BAIZE_REPO", "/repo")
+    verif = verif or VERIF
+    coq = os.path.join(verif, "coq")
+    target = METHOD_TARGETS[pid]
+
+    def label(spec):
+        return "%s/Translated.v (%s.%s)" % (pid, spec["cls"], spec["func"])
+    try:
+        ctx, res = translate_methods(repo, pid)
+    except Unsupported as e:
+        return [(label(sp), None, "the translator does not understand the current source (it refuses rather than guess): %s" % e)
+                for sp in target["methods"]]
+    except (OSError, SyntaxError) as e:
+        return [(label(sp), False, "cannot read the source: %s: %s" % (type(e).__name__, e)) for sp in target["methods"]]
+    except Exception as e:      # a defect of the translator itself: also closed
+        return [(label(sp), None, "the translator failed on the current source (%s: %s); the case-based tie decides alone"
+                 % (type(e).__name__, e)) for sp in target["methods"]]
+    tv = os.path.join(coq, "theories", pid, "Translated.v")
+    tsrc = open(tv).read()
+    block = TEMPLATE_BLOCK % {"pid": pid}
+    pre, segs = split_segments(tsrc)
+    ref = os.path.join(coq, "theories", pid, "Generated_ref.v")
+    refdefs = definitions_only(open(ref).read()) if os.path.exists(ref) else ""
+    root = os.path.join(verif, ".work", "translate-%s-%d" % (pid, os.getpid()))
+    shutil.rmtree(root, ignore_errors=True)
+
+    def one(spec, m):
+        name = label(spec)
+        t0 = time.time()
+        if isinstance(m, Unsupported):
+            return (name, None, "the translator does not understand the current source (it refuses rather than guess; this says "
+                                "nothing about the behaviour of the code, the case-based tie decides alone): %s" % m)
+        try:
+            names = m.closure()
+            text = methods_text(ctx, names)
+        except Exception as e:
+            return (name, None, "the translator failed on the current source (%s: %s); the case-based tie decides alone" % (type(e).__name__, e))
+        bad = [t for t in FORBIDDEN_TOKENS if re.search(r"\b%s\b" % t, strip_coq_comments(text.replace(HEADER_METHODS, "")))]
+        if bad:
+            return (name, False, "generated text contains %s" % bad)
+        if pre.count(block) != 1 or any(n not in segs for n in names):
+            return (name, False, "%s does not contain the marked Require block exactly once before the segments, or lacks the segment of "
+                                 "one of %s" % (tv, names))
+        part = pre.replace(block, FRESH_BLOCK) + "".join(segs[n] for n in names)
+        own = strip_coq_comments(segs[spec["name"]])
+        thms = re.findall(r"^\s*Theorem\s+(\w+)", own, re.M)
+        printed = re.findall(r"Print Assumptions\s+(\w+)\s*\.", strip_coq_comments(part))
+        if not thms or [t for t in thms if t not in printed]:
+            return (name, False, "Translated.v: no theorem about %s, or a theorem without Print Assumptions" % spec["name"])
+        fresh = os.path.join(root, spec["name"], "Fresh")
+        os.makedirs(fresh)
+        with open(os.path.join(fresh, "Generated.v"), "w") as f:
+            f.write(text)
+        with open(os.path.join(fresh, "Translated.v"), "w") as f:
+            f.write(part)
+        base = ["-Q", "theories", "Baize", "-Q", fresh, "Fresh"]
+        rc, out, err = run_coqc(base + [os.path.join(fresh, "Generated.v")], coq, timeout)
+        if rc == 124:
+            return (name, None, "coqc did not finish within %d s; no verdict from the source-level tie in this run" % timeout)
+        if rc != 0:
+            return (name, False, "the generated definition does not compile (rc %d): %s" % (rc, (err or out)[-600:]))
+        rc, out, err = run_coqc(base + [os.path.join(fresh, "Translated.v")], coq, timeout)
+        if rc == 124:
+            return (name, None, "coqc did not finish within %d s; no verdict from the source-level tie in this run" % timeout)
+        if rc != 0:
+            return (name, False, "the proof that the method translated from the current source equals the model function "
+                                 "no longer checks (rc %d): %s" % (rc, " ".join((err or out).split())[-600:]))
+        closed = out.count("Closed under the global context")
+        if closed != len(printed) or "Axioms:" in out:
+            return (name, False, "Print Assumptions: %d of %d closed under the global context: %s" % (closed, len(printed), out[-300:]))
+        same = definitions_only(m.text) in refdefs
+        return (name, True, "%s re-checked against the definition translated from %s (%s the committed reference copy%s), closed "
+                            "under the global context, %.1f s" % (
+                                ", ".join(thms), target["file"], "identical to" if same else "DIFFERENT from",
+                                ("; with the definitions of %s" % ", ".join(names[:-1])) if len(names) > 1 else "", time.time() - t0))
+    try:
+        with ThreadPoolExecutor(max(1, len(res))) as ex:
+            return list(ex.map(lambda sm: one(*sm), res))
+    finally:
+        if not keep:
+            shutil.rmtree(root, ignore_errors=True)
+
+
+# ---------------------------------------------------------------- Lib/PyList.v against the interpreter's list and dict
+#
+# As for PyStr: every PyList function is evaluated inside coqc (vm_compute) on every pair list of up to 3 pairs over 5 pairs
+# (3 keys), every position 0..3, every sequence of up to 5 dict operations (set / del of 3 keys); the results are hashed per
+# function and the same hash is computed from the interpreter's own list and dict.
+
+PAIR_ALPHA = [(0, 5), (0, 6), (1, 5), (1, 6), (2, 5)]
+
+
+def _hn(ns):
+    a = 7
+    for c in ns:
+        a = (a * 33 + c + 1) & M31
+    return a
+
+
+def _flat(pairs):
+    return [x for p in pairs for x in p]
+
+
+def _seqs(alpha, n):
+    import itertools
+    return [list(t) for k in range(n + 1) for t in itertools.product(alpha, repeat=k)]
+
+
+PYLIST_PRELUDE = """Definition PA : list (N * N) := %(pa)s.
+Definition PL : list (list (N * N)) := upto PA 3.
+Definition PL2 : list (list (N * N) * list (N * N)) := flat_map (fun a => map (fun b => (a, b)) (upto PA 2)) (upto PA 2).
+Definition OPS : list (list N) := upto [0; 1; 2; 3; 4; 5] 5.
+Definition flat (l : list (N * N)) : list N := flat_map (fun p => [fst p; snd p]) l.
+Definition hp (l : list (N * N)) : N := hs (flat l).
+Definition ho (o : option (list (N * N))) : N := match o with None => 1 | Some l => 2 + hp l end.
+Definition hv (o : option N) : N := match o with None => 1 | Some v => 2 + v end.
+Definition dstep (st : list (N * N) * N) (op : N) : list (N * N) * N :=
+  if N.ltb op 3 then (PyList.dict_set N.eqb op (N.of_nat (length (fst st))) (fst st), snd st)
+  else match PyList.dict_delitem N.eqb (op - 3) (fst st) with
+       | Some d' => (d', snd st)
+       | None => (fst st, snd st + 1)
+       end.
+Definition drun (ops : list N) : list (N * N) * N := fold_left dstep ops ([], 0).
+"""
+
+
+def pylist_checks():
+    cs = []
+
+    def add(label, dom, coq, py):
+        cs.append((label, dom, coq, py))
+    for k in range(3):
+        add("[v for a, v in l if a == %d]" % k, "PL", "fun l => hs (PyList.comp (fun '(a, b) => b) (fun '(a, _) => N.eqb a %d) l)" % k,
+            lambda l, k=k: _hn([v for a, v in l if a == k]))
+        add("[(a, v) for a, v in l if a != %d]" % k, "PL", "fun l => hp (PyList.comp (fun '(a, b) => (a, b)) (fun '(a, _) => negb (N.eqb a %d)) l)" % k,
+            lambda l, k=k: _hn(_flat([(a, v) for a, v in l if a != k])))
+        add("%d in d / d[%d] after a run of d[k] = v / del d[k]" % (k, k), "OPS",
+            "fun ops => hv (PyList.dict_get N.eqb %d (fst (drun ops))) + (if PyList.dict_mem N.eqb %d (fst (drun ops)) then 1000 else 0)" % (k, k),
+            lambda ops, k=k: (lambda d: (1 if k not in d else 2 + d[k]) + (1000 if k in d else 0))(_drun(ops)[0]))
+    add("[(7, v) for v in (b for a, b in l)]", "PL", "fun l => hp (PyList.comp (fun v => (7, v)) (fun _ => true) (map snd l))",
+        lambda l: _hn(_flat([(7, v) for v in [b for a, b in l]])))
+    add("l.append((9, 9))", "PL", "fun l => hp (PyList.append l (9, 9))", lambda l: (lambda m: (m.append((9, 9)), _hn(_flat(m)))[1])(list(l)))
+    add("l[:]", "PL", "fun l => hp (PyList.copy l)", lambda l: _hn(_flat(l[:])))
+    add("l.clear()", "PL", "fun l => hp (PyList.clear l)", lambda l: (lambda m: (m.clear(), _hn(_flat(m)))[1])(list(l)))
+    add("l[-1]", "PL", "fun l => match PyList.last_item l with None => 1 | Some p => 2 + hp [p] end", lambda l: 2 + _hn(_flat([l[-1]])) if l else 1)
+    add("l[0]", "PL", "fun l => match PyList.first_item l with None => 1 | Some p => 2 + hp [p] end", lambda l: 2 + _hn(_flat([l[0]])) if l else 1)
+    add("enumerate(l)", "PL", "fun l => hs (flat_map (fun ip => [N.of_nat (fst ip); fst (snd ip); snd (snd ip)]) (PyList.enumerate l))",
+        lambda l: _hn([x for i, p in enumerate(l) for x in (i, p[0], p[1])]))
+    add("tuple(x for x in l)", "PL", "fun l => hp (PyList.tuple_of l)", lambda l: _hn(_flat(tuple(x for x in l))))
+    add("reversed(l)", "PL", "fun l => hp (PyList.reversed l)", lambda l: _hn(_flat(list(reversed(tuple(l))))))
+    for i in range(4):
+        def seti(l, i=i):
+            m = list(l)
+            try:
+                m[i] = (9, 9)
+            except IndexError:
+                return 1
+            return 2 + _hn(_flat(m))
+
+        def deli(l, i=i):
+            m = list(l)
+            try:
+                del m[i]
+            except IndexError:
+                return 1
+            return 2 + _hn(_flat(m))
+        add("l[%d] = x" % i, "PL", "fun l => ho (PyList.set_item l %d%%nat (9, 9))" % i, seti)
+        add("del l[%d]" % i, "PL", "fun l => ho (PyList.del_item l %d%%nat)" % i, deli)
+    add("l.extend(m)", "PL2", "fun ab => hp (PyList.extend (fst ab) (snd ab))", lambda ab: (lambda m: (m.extend(x for x in ab[1]), _hn(_flat(m)))[1])(list(ab[0])))
+    add("[*a, *b]", "PL2", "fun ab => hp (PyList.concat2 (fst ab) (snd ab))", lambda ab: _hn(_flat([*(x for x in ab[0]), *(x for x in ab[1])])))
+    add("d[k] = v / del d[k] (the dict and the number of KeyErrors)", "OPS", "fun ops => hp (fst (drun ops)) + snd (drun ops)",
+        lambda ops: (lambda r: _hn(_flat(list(r[0].items()))) + r[1])(_drun(ops)))
+    return cs
+
+
+def _drun(ops):
+    d, errs = {}, 0
+    for op in ops:
+        if op < 3:
+            d[op] = len(d)
+        else:
+            try:
+                del d[op - 3]
+            except KeyError:
+                errs += 1
+    return d, errs
+
+
+def pylist_check(verif=None, timeout=120, keep=False):
+    """-> [(name, ok, detail)]: Lib/PyList.v evaluated by coqc against the list and dict of the running interpreter"""
+    import re
+    import shutil
+    import time
+    verif = verif or VERIF
+    coq = os.path.join(verif, "coq")
+    name = "Lib/PyList.v against the interpreter's list and dict"
+    t0 = time.time()
+    checks = pylist_checks()
+    pl = _seqs(PAIR_ALPHA, 3)
+    pl2 = _seqs(PAIR_ALPHA, 2)
+    doms = {"PL": pl, "PL2": [(a, b) for a in pl2 for b in pl2], "OPS": _seqs(range(6), 5)}
+    d = os.path.join(verif, ".work", "pylist-%d" % os.getpid())
+    shutil.rmtree(d, ignore_errors=True)
+    os.makedirs(d)
+    prelude = PYSTR_PRELUDE % {"hostile": "[]", "small": "[]"}
+    prelude = prelude.replace("From Baize Require Import Lib.PyStr.", "From Baize Require Import Lib.PyStr Lib.PyList.")
+    prelude += PYLIST_PRELUDE % {"pa": "[%s]" % "; ".join("(%d, %d)" % p for p in PAIR_ALPHA)}
+    try:
+        vf = os.path.join(d, "PyListCheck.v")
+        with open(vf, "w") as f:
+            f.write(prelude + "".join("Eval vm_compute in (hall (map (%s) %s)).\n" % (c, dom) for _, dom, c, _ in checks))
+        rc, out, err = run_coqc(["-Q", "theories", "Baize", vf], coq, timeout)
+        if rc != 0:
+            return [(name, None if rc == 124 else False, "coqc rc %d: %s" % (rc, (err or out)[-400:]))]
+        res = [int(x) for x in re.findall(r"=\s*(\d+)(?:%N)?\s*:\s*N\b", out)]
+        if len(res) != len(checks):
+            return [(name, False, "expected %d results from coqc, parsed %d" % (len(checks), len(res)))]
+        bad = [label for (label, dom, _, py), r in zip(checks, res) if r != _hall([py(x) for x in doms[dom]])]
+        if bad:
+            return [(name, False, "differs from PyList on: %s" % "; ".join(bad)[:500])]
+        return [(name, True, "%d functions/argument shapes, %d evaluations inside coqc (every pair list of <= 3 pairs over %d pairs, every "
+                             "run of <= 5 dict operations on 3 keys), %.1f s" % (
+                                 len(checks), sum(len(doms[dom]) for _, dom, _, _ in checks), len(PAIR_ALPHA), time.time() - t0))]
+    finally:
+        if not keep:
+            shutil.rmtree(d, ignore_errors=True)
+
+
 def obligations(pid, repo=None, verif=None, timeout=120):
     """what a harness module's extra_obligations(tier) returns: the translation obligation of <pid> and the PyStr comparison,
     run side by side"""
     from concurrent.futures import ThreadPoolExecutor
-    with ThreadPoolExecutor(2) as ex:
-        a = ex.submit(check_target, pid, repo, verif, timeout)
+    with ThreadPoolExecutor(3) as ex:
+        a = ex.submit(check_methods if pid in METHOD_TARGETS else check_target, pid, repo, verif, timeout)
         b = ex.submit(pystr_check, verif, timeout)
-        return list(a.result()) + list(b.result())
+        c = ex.submit(pylist_check, verif, timeout) if pid in METHOD_TARGETS else None
+        return list(a.result()) + list(b.result()) + (list(c.result()) if c is not None else [])
 
 
 def main():
@@ -1085,13 +2001,31 @@ def main():
     ap.add_argument("-o", "--out")
     ap.add_argument("--check", action="store_true", help="with --target: translate, compile, re-check Translated.v")
     ap.add_argument("--pystr-check", action="store_true", help="compare Lib/PyStr.v with this interpreter's str methods")
+    ap.add_argument("--pylist-check", action="store_true", help="compare Lib/PyList.v with this interpreter's list and dict")
     ap.add_argument("--keep", action="store_true", help="keep the scratch directory under .work")
     a = ap.parse_args()
-    if a.pystr_check or (a.check and a.target):
-        res = pystr_check(keep=a.keep) if a.pystr_check else check_target(a.target, a.repo, keep=a.keep)
+    if a.pystr_check or a.pylist_check or (a.check and a.target):
+        res = pystr_check(keep=a.keep) if a.pystr_check else pylist_check(keep=a.keep) if a.pylist_check else \
+            (check_methods if a.target in METHOD_TARGETS else check_target)(a.target, a.repo, keep=a.keep)
         for name, ok, detail in res:
-            print("%s: %s — %s" % ("ok" if ok else "BROKEN", name, detail))
+            print("%s: %s — %s" % ("ok" if ok else "BROKEN" if ok is not None else "not applicable", name, detail))
         return 0 if all(ok for _, ok, _ in res) else 1
+    if a.target in METHOD_TARGETS:
+        try:
+            ctx, res = translate_methods(a.repo, a.target)
+        except (Unsupported, OSError, SyntaxError) as e:
+            print("py2coq: NOT TRANSLATED: %s" % e, file=sys.stderr)
+            return 2
+        for spec, m in res:
+            if isinstance(m, Unsupported):
+                print("py2coq: NOT TRANSLATED (%s.%s): %s" % (spec["cls"], spec["func"], m), file=sys.stderr)
+        text = methods_text(ctx, [spec["name"] for spec, m in res if not isinstance(m, Unsupported)])
+        if a.out:
+            with open(a.out, "w") as f:
+                f.write(text)
+        else:
+            sys.stdout.write(text)
+        return 0 if not any(isinstance(m, Unsupported) for _, m in res) else 2
     if a.target:
         if a.target not in TARGETS:
             print("py2coq: unknown target %s" % a.target, file=sys.stderr)
